@@ -2,6 +2,7 @@
 # runs every registered quick (or thorough) check once and validates the evidence files
 cd "$(dirname "$0")/.."
 TIER=${1:-quick}
+CH=$(/venv/bin/python tools/fingerprint.py --changed); if [ -n "$CH" ]; then echo "NOTE: library source differs from fingerprints.json (run tools/fingerprint.py --write after a fix: commit): $CH" | cut -c1-300; fi
 rc=0
 for p in $(python3 -c "import json;print(' '.join(c['property_id'] for c in json.load(open('MANIFEST.json'))['checks']))"); do
   out=$(./check $p --tier $TIER 2>/dev/null | grep -v "^KNOWN-FINDING" | tail -1)
